@@ -30,8 +30,8 @@ def _with_prebuild(rng, build):
 def specs_for(ctx):
     rng = random.Random(ctx.seed)
     specs = []
-    bases = ctx.pick(["hexflower", "squares33", "brick33"], ["hexflower", "squares33", "brick33", "hex33", "irregular"])
-    stride = ctx.pick({"hexflower": 1, "squares33": 4, "brick33": 4}, {"hexflower": 1, "squares33": 1, "brick33": 1, "hex33": 1, "irregular": 64})
+    bases = ctx.pick(["hexflower", "squares33", "brick33", "lens5"], ["hexflower", "squares33", "brick33", "lens5", "hex33", "irregular"])
+    stride = ctx.pick({"hexflower": 1, "squares33": 4, "brick33": 4, "lens5": 1}, {"hexflower": 1, "squares33": 1, "brick33": 1, "lens5": 1, "hex33": 1, "irregular": 64})
     cfg = ctx.pick("MC_Interfaces_k13.cfg", "MC_Interfaces_k0137.cfg")
     ninst = 0
     for b in bases:
